@@ -29,7 +29,7 @@ OFFSETS = [-2000, -500, -50, +1000]
 EVENTS = (["next-timer", "+100ms", "user-send"]
           + [f"notify({k},{o:+d})" for k in ("genuine", "forged") for o in OFFSETS]
           + ["sync-reply", "sync-reply-twice", "sync-reply-wrong-tag", "sync-reply-forged"]
-          + [f"wrapped-indication({k},{o:+d})" for k in ("genuine", "forged") for o in OFFSETS]
+          + [f"wrapped-indication({k},{o:+d})" for k in ("genuine", "forged", "wrong-key") for o in OFFSETS]
           + ["plain-frames-of-every-service", "wrapped-unparsable-inner-frames"])
 # services a secure multicast node still has to accept unencrypted (03.08.09: discovery and self description)
 PLAIN_ALLOWED = {0x0201, 0x0202, 0x0203, 0x0204, 0x020B, 0x020C}
@@ -121,7 +121,9 @@ def make(steps: int, uniform_max: bool):
                         kind, off = ev[19:-1].split(",")
                         timer = max(0, local_timer() + int(off))
                         plain = KNXIPFrame.init_from_body(RoutingIndication(CEMI)).to_knx()
-                        raw = ipsec.wrap(KEY, 0, timer.to_bytes(6, "big"), PEER_SERIAL, b"\x33\x44", plain)
+                        # forged: one MAC bit flipped (the content still decrypts to a frame); wrong-key: wrapped with another key, so
+                        # what the receiver decrypts is noise that does not parse
+                        raw = ipsec.wrap(KEY if kind != "wrong-key" else bytes(16), 0, timer.to_bytes(6, "big"), PEER_SERIAL, b"\x33\x44", plain)
                         if kind == "forged":
                             raw = raw[:-1] + bytes((raw[-1] ^ 1,))
                         timely = timer > local_timer() - LATENCY_MS
@@ -200,7 +202,7 @@ def run(ctx: Ctx) -> None:
     ctx.rule = (
         f"real SecureRouting/SecureGroup/SecureSequenceTimer from connect() on (timer synchronisation running), in-memory multicast, random.uniform owned by the harness (min and max), "
         f"{steps} environment steps; every schedule with <= {bound} events other than 'next timer' from: +100 ms, user send, TimerNotify genuine/forged at local timer {OFFSETS} ms, "
-        "the reply to our synchronisation tag (once, twice, wrong tag, forged), wrapped RoutingIndication genuine/forged at the same offsets, one plain frame of every service, authentic wrappers around unparsable content type. "
+        "the reply to our synchronisation tag (once, twice, wrong tag, forged), wrapped RoutingIndication genuine / with a flipped MAC bit / wrapped with another key (decrypts to noise) at the same offsets, one plain frame of every service, authentic wrappers around unparsable content type. "
         "Frames are built by the independent reference. Oracle: nothing raises; only authentic frames move the timer and never backwards; wrapped frames are forwarded iff authentic, timely "
         "(> local - 1000 ms) and after synchronisation; plain frames only for discovery/description; everything sent is an authentic wrapper or TimerNotify with non-decreasing timer"
     )
